@@ -213,12 +213,108 @@ def corpus(ctx):
             ctx.violation("failing-input", "corpus: absent prod of a closed-form sequence is exported as a value", {"qref": q}, repr(sq.prod), None)
 
 
+def gen_shape(rng, syms, depth):
+    """expressions whose printed form needs care: power towers on either side, negated and fractional exponents, quotient
+    chains, products under powers, floor-division, calls"""
+    if depth <= 0 or rng.random() < 0.15:
+        return E.sym(rng.choice(syms)) if rng.random() < 0.75 else E.num(rng.randint(1, 5))
+    r = rng.random()
+    a = gen_shape(rng, syms, depth - 1)
+    if r < 0.4:
+        b = gen_shape(rng, syms, depth - 1)
+        if rng.random() < 0.3:
+            b = rng.choice([E.neg(b), E.bin_("/", E.num(1), E.num(rng.choice([2, 3]))), E.bin_("/", b, E.num(2))])
+        return E.bin_("**", a, b)
+    if r < 0.55:
+        return E.bin_("/", a, gen_shape(rng, syms, depth - 1))
+    if r < 0.7:
+        return E.bin_("*", a, gen_shape(rng, syms, depth - 1))
+    if r < 0.8:
+        return E.bin_("+", a, gen_shape(rng, syms, depth - 1))
+    if r < 0.87:
+        return E.bin_("-", a, gen_shape(rng, syms, depth - 1))
+    if r < 0.93:
+        # applied to symbolic arguments only: a call on a literal (log2(3)) is folded to a 15-digit float on import, which the
+        # exact comparator cannot relate to the surrogate value of the unevaluated call
+        return E.app(rng.choice(["log2", "ceiling", "f", "sqrt"]), a if E.fv(a) else E.bin_("+", a, E.sym(rng.choice(syms))))
+    return E.neg(a)
+
+
+def field_stream(ctx):
+    """every expression-bearing field of a QREF document (port size, resource value, local variable, repetition count and each
+    sequence parameter) is filled with an expression of an awkward shape; export -> validate -> import must keep its value"""
+    from bartiq import Routine
+    from qref import SchemaV1
+
+    rng = ctx.rng
+    S = ["N", "M", "k", "L"]
+    for i in range(ctx.n(200, 4000)):
+        x = lambda d=3: E.to_str(gen_shape(rng, S, d), power=rng.choice(["**", "^"]))  # noqa: E731
+        kind = rng.choice(["constant", "arithmetic", "geometric", "closed_form", "custom"])
+        seq = {"constant": lambda: {"type": "constant", "multiplier": x(2)},
+               "arithmetic": lambda: {"type": "arithmetic", "initial_term": x(2), "difference": x(2)},
+               "geometric": lambda: {"type": "geometric", "ratio": x(2)},
+               "closed_form": lambda: {"type": "closed_form", "sum": "Tn * (" + x(2) + ")", "prod": "(" + x(2) + ") ** Tn", "num_terms_symbol": "Tn"},
+               "custom": lambda: {"type": "custom", "term_expression": "it + (" + x(2) + ")", "iterator_symbol": "it"}}[kind]()
+        core = {"name": "core", "input_params": ["n"], "resources": [{"name": "T", "type": "additive", "value": x()}, {"name": "P", "type": "multiplicative", "value": x(2)}]}
+        core["resources"][0]["value"] = core["resources"][0]["value"].replace("N", "n")
+        core["resources"][1]["value"] = core["resources"][1]["value"].replace("N", "n")
+        rep = {"name": "a", "input_params": ["n", "M", "k", "L"], "children": [dict(core, input_params=["n", "M", "k", "L"])],
+               "linked_params": [{"source": q_, "targets": ["core." + q_]} for q_ in ("n", "M", "k", "L")],
+               "repetition": {"count": x(2).replace("N", "n"), "sequence": {k_: (v.replace("N", "n") if k_ not in ("type", "num_terms_symbol", "iterator_symbol") else v) for k_, v in seq.items()}}}
+        q = {"name": "root", "input_params": S, "local_variables": {"v": x()},
+             "ports": [{"name": "in_0", "direction": "input", "size": x(2)}, {"name": "out_0", "direction": "output", "size": None}],
+             "connections": [{"source": "in_0", "target": "out_0"}],
+             "resources": [{"name": "R", "type": "other", "value": x()}],
+             "children": [rep], "linked_params": [{"source": "v", "targets": ["a.n"]}] + [{"source": q_, "targets": ["a." + q_]} for q_ in ("M", "k", "L")]}
+        ctx.stats["evaluations"] += 1
+        try:
+            doc = schema(q)
+            out = Routine.from_qref(doc, B).to_qref(B)
+            out2 = SchemaV1.model_validate(json.loads(out.model_dump_json()))
+        except Exception as e:
+            ctx.stats["field_stream_raised_" + type(e).__name__] += 1
+            continue
+        ctx.stats["field_stream_cases"] += 1
+        ctx.stats["field_stream_seq_" + kind] += 1
+        err = same_exprs(doc.program, out2.program, rng)
+        if err:
+            ctx.violation("failing-input", "re-imported uncompiled routine differs: " + err, {"qref": q}, err, "mathematically equal expressions")
+            return
+        ctx.nontrivial(("fields", i))
+        st, r = try_compile(q)
+        ctx.stats["field_stream_compile_" + st] += 1
+        if st == "ok":
+            try:
+                c2 = compile_routine(out2).routine
+            except Exception as e:
+                ctx.violation("failing-input", f"the re-imported routine does not compile ({type(e).__name__}) although the original does", {"qref": q}, str(e)[:300], "same result")
+                return
+            diffs = compare.trees_equal_real(r.routine, c2, rng, constraints=False)
+            if diffs:
+                ctx.violation("failing-input", f"compiling the re-imported routine gives a different result: {diffs[0][:2]}", {"qref": q}, [str(z)[:200] for z in diffs[0]], "equal")
+                return
+            try:
+                back = __import__("bartiq").CompiledRoutine.from_qref(SchemaV1.model_validate(json.loads(r.to_qref().model_dump_json())), B)
+            except Exception as e:
+                ctx.violation("failing-input", f"export/import of the compilation result raised {type(e).__name__}", {"qref": q}, str(e)[:300], "an equivalent routine")
+                return
+            diffs = compare.trees_equal_real(r.routine, back, rng, constraints=False)
+            if diffs:
+                ctx.violation("failing-input", f"re-imported compiled routine has a different value: {diffs[0][:2]}", {"qref": q}, [str(z)[:200] for z in diffs[0]], "equal")
+                return
+            ctx.stats["field_stream_compiled_roundtrips"] += 1
+        if i % 70 == 0:
+            ctx.sample({"field_stream": q})
+
+
 def run(ctx, widen=False):
     n = ctx.n(300, 8000) * (3 if widen else 1)
     ctx.rule = ("routine trees with repetitions of all five kinds (70% symbolic parameters), deep links, locals; export -> validate -> import for the uncompiled routine and "
                 "for the compilation result; unsized root input ports excluded (listed finding, witness replayed); non-trivial = has a repetition, a deep link or locals")
     known_witnesses(ctx)
     corpus(ctx)
+    field_stream(ctx)
     base = ctx.seed * 1000003 + 10500000
     pipeline.run_stream(ctx, __name__, range(base, base + n), use_model=False)
 
